@@ -680,10 +680,12 @@ MANIFEST = dict(
         "softmax / weighted sum / all score functions, the per-projection bias table and the head split/merge size "
         "table. Necessary conditions of 'blind to masked positions' and 'a bias exactly on the projections for which "
         "one was requested'; the forward pass of GlobalSoftAttention is also interpreted over exact values with a surrogate softmax (2**e, "
-        "normalised) for masked / unmasked keys and every legal dim, and check_input for the legal range of dim; convexity bounds and "
+        "normalised) for masked / unmasked keys and every legal dim, and check_input for the legal range of dim; the MultiHeadedAttention "
+        "constructor's guards are evaluated for dim = -3 .. 2 (a wrapped attention counting its axis from the end must be refused) and the "
+        "softmax keeps the precision of the scores (no forced dtype); convexity bounds and "
         "permutation invariance relate pairs of runtime inputs and are not decided."),
     level_note="Trusted: python ast; softmax(-inf) = 0 weight. F9 (bias_WK/bias_WV validated from bias_WQ) was found by G3 "
                "and repaired.",
-    technique="static analysis: reaching-definition (def-use) rules, dimension/size table agreement (softmax axis evaluated as a function of dim), argcheck idiom lint, argument binding; interpretation of the forward pass over exact values with a surrogate softmax; check_input of both classes interpreted for three different widths; shared-query rows (an in-place operation cannot broadcast its receiver)",
+    technique="static analysis: reaching-definition (def-use) rules, dimension/size table agreement (softmax axis evaluated as a function of dim), argcheck idiom lint, argument binding; interpretation of the forward pass over exact values with a surrogate softmax; check_input of both classes interpreted for three different widths; shared-query rows (an in-place operation cannot broadcast its receiver); constructor guards evaluated over a range of dim; softmax dtype rule",
     design_ref="DESIGN.md section 4 C20",
 )
